@@ -277,6 +277,7 @@ package knx
 //@   ensures [bounded] uint(gobj("llen", router.retainer)) <= router.config.RetainCount && gobj("lpopback", router.retainer) == old(gobj("lpopback", router.retainer))
 //@   ensures [pause] data != nil && err == nil && router.postSendPause > 0 ==> gobj("unlockclock", &router.sendMu) >= gobj("sendclock", payload(router.sock)) + int(router.postSendPause)
 //@   ensures [unlocked] !held(router.sendMu)
+//@   ensures [under.lock] {C13} sendbare(router.sock) == old(sendbare(router.sock))
 //@   assigns nothing
 //@   loop 0 invariant held(router.sendMu) && gobj("lpush", router.retainer) == old(gobj("lpush", router.retainer)) + 1 && uint(gobj("llen", router.retainer)) <= uint(old(gobj("llen", router.retainer))) + 1 && (uint(gobj("llen", router.retainer)) < uint(old(gobj("llen", router.retainer))) + 1 ==> uint(gobj("llen", router.retainer)) >= router.config.RetainCount) && gobj("llen", router.retainer) >= 0 && err == nil && data != nil
 //@   loop 0 invariant nsend(router.sock) == old(nsend(router.sock)) + 1 && typeis(lastsend(router.sock), *knxnet.RoutingInd) && lastsend(router.sock).(*knxnet.RoutingInd).Payload == data && gobj("sendclock", payload(router.sock)) <= gval("clock")
@@ -298,8 +299,12 @@ package knx
 //@   loop 0 ghost llen lpopback lend
 
 //@ func (router *Router) sendMultiple(messages []cemi.Message)
-//@   props C14
+//@   props C14 C13
 //@   ghost
+//@   -- C13: a retransmission is paced and held back like any other transmission: nothing leaves
+//@   -- through the socket unless the send lock is held
+//@   ensures [under.lock] {C13} sendbare(router.sock) == old(sendbare(router.sock))
+//@   loop 0 invariant sendbare(router.sock) == old(sendbare(router.sock))
 //@   requires router.sock != nil && router.retainer != nil && !held(router.sendMu) && router.config.RetainCount >= 1 && router.config.RetainCount <= 1<<30 && uint(gobj("llen", router.retainer)) <= router.config.RetainCount && router.postSendPause <= 1<<40
 //@   assigns nothing
 //@   loop 0 invariant -1 <= rangeindex && rangeindex < len(messages) && !held(router.sendMu) && uint(gobj("llen", router.retainer)) <= router.config.RetainCount
